@@ -148,5 +148,5 @@ ASSUMPTIONS = ["pre-emption only at intercepted operations (channel send/select,
 
 def main(tier):
     n = 400 if tier == "quick" else 12000
-    cap = 240 if tier == "quick" else 3600
+    cap = 240 if tier == "quick" else 1500
     return engine.run_check(PROP, "c06", tier, n, cap, "exploration", RULE, ASSUMPTIONS)
